@@ -1,6 +1,7 @@
 package main
 
 import (
+	"runtime/debug"
 	"flag"
 	"fmt"
 	"os"
@@ -30,6 +31,9 @@ func main() {
 	nshard := flag.Int("nshard", 1, "number of shards")
 	flag.Parse()
 	seed, _ := strconv.ParseUint(*seedS, 10, 64)
+	// unbounded recursion in the library should end this process within seconds, not after a
+	// gigabyte of stack (the check reports the case in flight)
+	debug.SetMaxStack(128 << 20)
 
 	if *replay != "" {
 		os.Exit(doReplay(*replay, *driver))
@@ -57,10 +61,17 @@ func main() {
 			os.Remove(f)
 		}
 	}
+	if *out != "" {
+		InflightPath = *out + ".inflight"
+		os.Remove(InflightPath)
+	}
 	r.Probe()
 	r.RunCorpus("/verif/corpus/" + *prop)
 	run(r, *tier, NewRng(seed*0x9E3779B97F4A7C15+uint64(*shard)+1))
 	code := r.Finish(*tier, *out, *replayDir)
+	if InflightPath != "" {
+		os.Remove(InflightPath) // the run came to its end: nothing is in flight
+	}
 	drv.Close()
 	os.Exit(code)
 }
